@@ -353,3 +353,13 @@ Fixpoint alternating (open : Z -> bool) (evs : list msg) : bool :=
         open h && alternating (fun k => if k =? h then false else open k) r
       else alternating open r
   end.
+
+(* ------------------------------------------------------------------ per-key sub-streams *)
+(* the messages of one (channel, pitch) key of a track, in file order: what the importer's
+   sounding-note table sees for that key *)
+Definition nhash (n : note) : Z := let '(ch, _, p, _) := n in note_hash ch p.
+Definition is_note_msg (m : msg) : bool :=
+  let '(_, k, _, _, v) := m in ((k =? 1) && (0 <? v)) || (k =? 0) || ((k =? 1) && (v =? 0)).
+Definition mhash (m : msg) : Z := let '(_, _, ch, p, _) := m in note_hash ch p.
+Definition proj (h : Z) (evs : list msg) : list msg :=
+  filter (fun m => is_note_msg m && (mhash m =? h)) evs.
